@@ -341,14 +341,16 @@ def healthyOwners (d : PDesc) (insts : Desc) (hs : List Bool) (pid : Int) (strip
   (d.owners.filter (·.partition == pid)).filterMap fun o =>
     let iid := if strip then stripSuffix o.id else o.id
     match insts.find? (·.id == iid) with
-    | some i => if hs.getD i.state.toNat false && i.ts > nowRepr then some i else none
+    | some i => if hs.getD i.state.toNat false && nowRepr - i.ts ≤ timeoutRepr then some i else none   -- heartbeat within the timeout
     | none => none
 
 def handleRepl (f : List String) : String × String × String :=
   match f with
-  | [ds, is, bits, obs] =>
+  | [ds, is, bitsKind, obs] =>
     match parsePDesc ds, parseDesc is with
     | some d, some insts =>
+      let bits := (bitsKind.splitOn ",").headD ""
+      let kind := ((bitsKind.splitOn ",").drop 1).headD "ring"
       let hs := parseBits bits
       let m := match replSets d insts hs timeoutRepr nowRepr with
         | .ok sets => "ok:" ++ ";".intercalate (sortStr (sets.map fun (ids, mu) => showSet (sortStr ids) mu))
@@ -364,7 +366,7 @@ def handleRepl (f : List String) : String × String × String :=
         else if obs == "err:tooManyUnhealthy" then (if expected.any (·.isEmpty) then [] else ["error-although-all-partitions-have-healthy-owner"])
         else if obs == "err:emptyRing" then (if d.parts.isEmpty then [] else ["empty-ring-error-with-partitions"])
         else ["unexpected-error"]
-      let tags := s!"repl res={if obs.startsWith "ok" then "ok" else obs} parts={d.parts.length} owners={bucket d.owners.length} insts={bucket insts.length}"
+      let tags := s!"repl kind={kind} res={if obs.startsWith "ok" then "ok" else obs} parts={d.parts.length} owners={bucket d.owners.length} insts={bucket insts.length}"
       (diff, joinReasons judge, tags)
     | _, _ => ("bad-input", "-", "-")
   | _ => ("bad-fields", "-", "-")
